@@ -1064,7 +1064,9 @@ class NamedVariables(UserDict):
                 Sum(
                     *(
                         f"nll_regul_{ind_var_name}_ind"
-                        for ind_var_name in self._latent_ind_vars
+                        # <!> fixed order: iterating on the set would make the order of the
+                        # float additions depend on the interpreter's hash seed
+                        for ind_var_name in sorted(self._latent_ind_vars)
                     )
                 )
             ),
